@@ -379,6 +379,7 @@ def main(tier, seed, scale=1.0):
     # layer 2
     vbuild.build("asan")
     n2 = int((3000 if tier == "quick" else 60000) * scale)
+    vcommon.run_corpus(PROP, check_case, {"prop": PROP}, res)
     for d in vcommon.run_shards("c18", "check_case", "strat", n2, seed, tier, {"prop": PROP}):
         res.merge_shard(d)
     res.nt_count += len(res.nontrivial)
